@@ -1375,9 +1375,12 @@ class TT():
                 raise IncompatibleTypes(
                     'Incompatible data types (make sure both are either TT-matrices or TT-tensors).')
 
-            # concatenate the result
-            cores_new = [c.clone() for c in self.cores] + [c.clone()
-                                                           for c in other.cores]
+            # concatenate the result (common dtype for all the cores)
+            dtype = None
+            for c in self.cores + other.cores:
+                dtype = c.dtype if dtype is None else tn.promote_types(dtype, c.dtype)
+            cores_new = [c.clone().to(dtype) for c in self.cores] + [c.clone().to(dtype)
+                                                                     for c in other.cores]
             result = TT(cores_new)
         else:
             raise InvalidArguments('Invalid arguments.')
